@@ -9,8 +9,8 @@ MODEL_GROUP = "sched"
 THEOREM_FILE = "Props/C13.v"
 LEVEL_TEXT = ("Coq theorems over a Gallina model of the daemon's scheduling core: for every well-formed history of "
               "browse / browse again / browse_cache / stop_browse / resolve_hostname (any timeout, mixed-case names) / "
-              "stop_resolve_hostname / shutdown calls and iteration times in which a resolver deadline is never noticed "
-              "late, every channel receives exactly the events the history demands (SearchStarted first; SearchStopped "
+              "stop_resolve_hostname / shutdown calls and iteration times (early, on time or late) "
+              "every channel receives exactly the events the history demands (SearchStarted first; SearchStopped "
               "exactly when stopped, timed out - after SearchTimeout - or shut down, once and last; repeated "
               "SearchStarted only while the search is current) and once a search is over no query for it leaves in any "
               "continuation (chk_C13); state-level: after the stop no retransmission and no listener for the key "
@@ -46,9 +46,7 @@ PARTIAL = ("slice: histories without incoming datagrams (cache empty): ServiceFo
            "newer browse/resolve of the same key gets no SearchStopped: it is disconnected silently (the daemon drops "
            "its sender); chk_C13 demands 'no further event' there - reported as an observation, the text lists "
            "replacement under C19 ('replaces the earlier search'), not among the stop causes. Channel disconnection "
-           "(<closed>) is compared in the correspondence but is not part of chk_C13. The full statement over ALL "
-           "histories is refuted (C13_full_statement_refuted, known finding C13-timeout-late-rerun); proved for "
-           "hazard-free histories, which include all histories in which the daemon is never woken later than it asked.")
+           "(<closed>) is compared in the correspondence but is not part of chk_C13.")
 HARNESS_ARGS = ["sim"]
 PER_SHARD = 8
 
@@ -67,10 +65,6 @@ def generate(rng, tier):
     # scheduler-slice histories (model + correspondence) plus the model-free
     # "stop forgets the cached records" family (tools/props/stopforget.py)
     return schedlib.generate_histories(rng, tier, ID) + stopforget.generate(rng, tier)
-
-
-def known_class(line, impl_result, monitor_result):
-    return ID + "-timeout-late-rerun" if monitor_result.startswith("FAIL[late-timeout]") else None
 
 
 def shrink(line, still_bad):
